@@ -44,7 +44,8 @@ def extract(repo='/repo', config='dev', target_dir=None, keep=False):
     os.makedirs(tdir, exist_ok=True)
     out_dir = os.path.join(CACHE, 'facts')
     os.makedirs(out_dir, exist_ok=True)
-    out = os.path.join(out_dir, 'facts-%d-%s.json' % (os.getpid(), config))
+    import threading
+    out = os.path.join(out_dir, 'facts-%d-%d-%s.json' % (os.getpid(), threading.get_ident(), config))
     for p in (out, out + '.test'):
         if os.path.exists(p):
             os.remove(p)
